@@ -96,6 +96,7 @@ type machine struct {
 	violation *violationRec
 	unknowns  int
 	onces     map[*value]bool
+	onceState map[*value]int
 	pools     map[*value][]value
 	mutexes   map[*value]bool
 	side      map[string]value // engine-side state for harness models
@@ -107,6 +108,7 @@ type machine struct {
 	hiddenVars []*Term
 	inDecide   bool
 	unwind     int
+	thr        *threadsState
 }
 
 type violationRec struct {
@@ -825,8 +827,12 @@ func (m *machine) runPath(entry *ssa.Function) (res pathResult) {
 			res.engineBug = fmt.Sprintf("%v\n at %s\n%s", r, m.where(), debug.Stack())
 		}
 	}()
+	defer m.shutdownThreads()
 	m.initMainGlobals()
 	m.callFunction(nil, entry, nil, nil)
+	if m.multi() {
+		m.joinAll()
+	}
 	return
 }
 
